@@ -138,6 +138,12 @@ func runC07(raw json.RawMessage, w *Writer) {
 	finalRet := atomic.AddInt64(&clock, 1)
 
 	w.Emit(Ev{"ev": "reset", "class": c.Class, "kind": c.Kind, "start": c.Start, "g": c.G, "k": c.K})
+	// Issue order is forced by the values themselves (value + 65536 * wraps grows by one per issue), so the
+	// hook events are put in that order; the order in which the hook calls happened to arrive is not used
+	// (a lock-free implementation may report them out of order and still be linearizable).
+	sort.SliceStable(hooks, func(i, j int) bool {
+		return hooks[i].roc*65536+uint64(hooks[i].v) < hooks[j].roc*65536+uint64(hooks[j].v)
+	})
 	for _, h := range hooks {
 		roc := int(h.roc)
 		if h.roc > 1<<30 {
@@ -219,9 +225,42 @@ func runC07(raw json.RawMessage, w *Writer) {
 			w.Emit(Ev{"ev": "lin", "pos": k, "inv": int(a.inv), "ret": int(a.ret), "v": int(a.v)})
 		}
 	}
+	// RollOverCount reads, judged by call windows only (no assumption on where inside a call the issue takes
+	// effect): a call that returned before the read was invoked is visible to it (and so are all earlier issues);
+	// a call invoked after the read returned is not (nor any later issue). lo/hi are witnesses TLC verifies.
+	n := len(all)
+	complete := n == len(hooks)
+	for k := 0; complete && k < n; k++ {
+		complete = all[k].ref == k+1
+	}
+	sufMinRet := make([]int64, n+1)
+	preMaxInv := make([]int64, n+1)
+	if complete {
+		sufMinRet[n] = 1 << 62
+		for k := n - 1; k >= 0; k-- {
+			sufMinRet[k] = sufMinRet[k+1]
+			if all[k].ret < sufMinRet[k] {
+				sufMinRet[k] = all[k].ret
+			}
+		}
+		for k := 0; k < n; k++ {
+			preMaxInv[k+1] = preMaxInv[k]
+			if all[k].inv > preMaxInv[k+1] {
+				preMaxInv[k+1] = all[k].inv
+			}
+		}
+	}
 	emitRead := func(g int, inv, ret int64, roc uint64) {
-		lo := sort.Search(len(hooks), func(i int) bool { return hooks[i].c > inv })  // hooks[0:lo] happened before inv
-		hi := sort.Search(len(hooks), func(i int) bool { return hooks[i].c > ret })  // hooks[0:hi] happened before ret
+		if !complete {
+			return // the case is already rejected at the unmatched call
+		}
+		// lo: largest 1-based k with all[k-1].ret < inv  (sufMinRet is non-decreasing)
+		lo := sort.Search(n, func(i int) bool { return sufMinRet[i] >= inv })
+		for lo > 0 && all[lo-1].ret >= inv {
+			lo--
+		}
+		// hi: (first 1-based k with all[k-1].inv > ret) - 1
+		hi := sort.Search(n, func(i int) bool { return preMaxInv[i+1] > ret })
 		w.Emit(Ev{"ev": "read", "g": g, "inv": int(inv), "ret": int(ret), "roc": int(roc), "lo": lo, "hi": hi})
 	}
 	for r := range reads {
